@@ -262,4 +262,142 @@ CASES = [
       return;
     }""")]),
  dict(name="c06-flag-not-reset", ids=["C06"], rule="C06.R3d", subs=[(BW, "      transit_event.flush_flag = nullptr;\n", "")]),
+
+ # ---------------- C10
+ dict(name="c10-prefix-named-args-handler", ids=["C10"], rule="C10.R1", subs=[(BW, "    QUILL_CATCH_ALL() {}\n#endif", "#endif")]),
+ dict(name="c10-prefix-log-message-handler", ids=["C10"], rule="C10.R1", subs=[(BW, """    QUILL_CATCH_ALL()
+    {
+      transit_event->formatted_msg->clear();
+      std::string const error = fmtquill::format(
+        R"([Could not format log statement. message: "{}", location: "{}", error: "unknown exception"])",
+        transit_event->macro_metadata->message_format(),
+        transit_event->macro_metadata->short_source_location());
+
+      transit_event->formatted_msg->append(error);
+      _options.error_notifier(error);
+    }
+#endif""", "#endif")]),
+ dict(name="c10-run-loop-catch-all-removed", ids=["C10"], rule="C10.R4", subs=[(BW, """          QUILL_CATCH(std::exception const& e) { _options.error_notifier(e.what()); }
+          QUILL_CATCH_ALL()
+          {
+            _options.error_notifier(std::string{"Caught unhandled exception."});
+          } // clang-format on
+#endif
+        }
+
+        // exit""", """          QUILL_CATCH(std::exception const& e) { _options.error_notifier(e.what()); }
+#endif
+        }
+
+        // exit""")]),
+ dict(name="c10-per-event-handler-rethrows", ids=["C10"], rule="C10.R", subs=[(BW, """    QUILL_CATCH(std::exception const& e) { _options.error_notifier(e.what()); }
+    QUILL_CATCH_ALL()
+    {
+      _options.error_notifier(std::string{"Caught unhandled exception."});
+    } // clang-format on
+#endif
+
+    // Finally clean up any remaining fields in the transit event""", """    QUILL_CATCH(std::exception const& e) { _options.error_notifier(e.what()); }
+    QUILL_CATCH_ALL()
+    {
+      _options.error_notifier(std::string{"Caught unhandled exception."});
+      throw;
+    } // clang-format on
+#endif
+
+    // Finally clean up any remaining fields in the transit event""")]),
+ dict(name="c10-flush-try-outside-loop", ids=["C10"], rule="C10.R3c", subs=[(BW, """    for (auto const& sink : _active_sinks_cache)
+    {
+      QUILL_TRY
+      {
+        if (should_flush_sinks)
+        {
+          // If an exception is thrown, catch it here to prevent it from propagating
+          // to the outer function. This prevents potential infinite loops caused by failing
+          // flush operations.
+          sink->flush_sink();
+        }
+      }
+#if !defined(QUILL_NO_EXCEPTIONS)
+      QUILL_CATCH(std::exception const& e) { _options.error_notifier(e.what()); }
+      QUILL_CATCH_ALL() { _options.error_notifier(std::string{"Caught unhandled exception."}); }
+#endif
+
+      if (run_periodic_tasks)
+      {
+        sink->run_periodic_tasks();
+      }
+    }
+""", """    QUILL_TRY
+    {
+    for (auto const& sink : _active_sinks_cache)
+    {
+        if (should_flush_sinks)
+        {
+          sink->flush_sink();
+        }
+
+      if (run_periodic_tasks)
+      {
+        sink->run_periodic_tasks();
+      }
+    }
+    }
+#if !defined(QUILL_NO_EXCEPTIONS)
+      QUILL_CATCH(std::exception const& e) { _options.error_notifier(e.what()); }
+      QUILL_CATCH_ALL() { _options.error_notifier(std::string{"Caught unhandled exception."}); }
+#endif
+""")]),
+ dict(name="c10-handler-silent", ids=["C10"], rule="C10.R4b", subs=[(BW, """    QUILL_CATCH(std::exception const& e) { _options.error_notifier(e.what()); }
+    QUILL_CATCH_ALL()
+    {
+      _options.error_notifier(std::string{"Caught unhandled exception."});
+    } // clang-format on
+#endif
+
+    // Finally clean up""", """    QUILL_CATCH(std::exception const&) { }
+    QUILL_CATCH_ALL()
+    {
+      _options.error_notifier(std::string{"Caught unhandled exception."});
+    } // clang-format on
+#endif
+
+    // Finally clean up""")]),
+ dict(name="c10-run_periodic_tasks-may-throw", ids=["C10"], rule="C10.R3", subs=[("sinks/Sink.h", "QUILL_ATTRIBUTE_HOT virtual void run_periodic_tasks() noexcept {}", "QUILL_ATTRIBUTE_HOT virtual void run_periodic_tasks() {}")]),
+
+ # ---------------- C08
+ dict(name="c08-true-on-drop", ids=["C08"], rule="C08.R1", subs=[("Logger.h", """          thread_context->increment_failure_counter();
+        }
+        return false;""", """          thread_context->increment_failure_counter();
+        }
+        return true;""")]),
+ dict(name="c08-count-every-event", ids=["C08"], rule="C08.R2", subs=[("Logger.h", """        // not enough space to push to queue message is dropped
+        if (macro_metadata->event() == MacroMetadata::Event::Log)
+        {
+          thread_context->increment_failure_counter();
+        }""", """        // not enough space to push to queue message is dropped
+        thread_context->increment_failure_counter();""")]),
+ dict(name="c08-load-store-reset", ids=["C08"], rule="C08.R3", subs=[("core/ThreadContextManager.h", "    return _failure_counter.exchange(0, std::memory_order_relaxed);", "    size_t const v = _failure_counter.load(std::memory_order_relaxed);\n    _failure_counter.store(0, std::memory_order_relaxed);\n    return v;")]),
+ dict(name="c08-commit-on-null-path", ids=["C08", "C01"], rule="R", subs=[("Logger.h", """          thread_context->increment_failure_counter();
+        }
+        return false;""", """          thread_context->increment_failure_counter();
+        }
+        thread_context->get_spsc_queue<frontend_options_t::queue_type>().finish_and_commit_write(0);
+        return false;""")]),
+ dict(name="c08-exit-skips-report", ids=["C08"], rule="C08.R4d", subs=[(BW, """        // we are done, all queues are now empty
+        _check_failure_counter(_options.error_notifier);""", """        // we are done, all queues are now empty""")]),
+ dict(name="c08-count-twice", ids=["C08"], rule="C08.R2", subs=[("Logger.h", """        // not enough space to push to queue message is dropped
+        if (macro_metadata->event() == MacroMetadata::Event::Log)
+        {
+          thread_context->increment_failure_counter();
+        }""", """        // not enough space to push to queue message is dropped
+        if (macro_metadata->event() == MacroMetadata::Event::Log)
+        {
+          thread_context->increment_failure_counter();
+          thread_context->increment_failure_counter();
+        }""")]),
+ dict(name="c08-init_backtrace-not-retried", ids=["C08", "C06"], rule="R", subs=[("Logger.h", """    while (!this->log_statement<false, false>(LogLevel::None, &macro_metadata, max_capacity))
+    {
+      std::this_thread::sleep_for(std::chrono::nanoseconds{100});
+    }""", """    (void)this->log_statement<false, false>(LogLevel::None, &macro_metadata, max_capacity);""")]),
 ]
